@@ -274,6 +274,28 @@ func (d *V1) do(op Op) Resp {
 			return errResp(err)
 		}
 		return Resp{Desc: descFromV1(out.TableDescription)}
+	case KUpdateTbl:
+		in := &dynamodb.UpdateTableInput{TableName: aws.String(op.Table)}
+		for _, ch := range op.Changes {
+			if g := ch.Create; g != nil {
+				in.AttributeDefinitions = append(in.AttributeDefinitions, &dynamodb.AttributeDefinition{AttributeName: aws.String(g.Hash), AttributeType: aws.String(g.HashT)})
+				if g.Range != "" {
+					in.AttributeDefinitions = append(in.AttributeDefinitions, &dynamodb.AttributeDefinition{AttributeName: aws.String(g.Range), AttributeType: aws.String(g.RangeT)})
+				}
+				in.GlobalSecondaryIndexUpdates = append(in.GlobalSecondaryIndexUpdates, &dynamodb.GlobalSecondaryIndexUpdate{Create: &dynamodb.CreateGlobalSecondaryIndexAction{
+					IndexName: aws.String(g.Name), KeySchema: keySchemaV1(g.Hash, g.Range),
+					Projection:            &dynamodb.Projection{ProjectionType: aws.String("ALL")},
+					ProvisionedThroughput: throughputV1(g.Throughput),
+				}})
+			} else {
+				in.GlobalSecondaryIndexUpdates = append(in.GlobalSecondaryIndexUpdates, &dynamodb.GlobalSecondaryIndexUpdate{Delete: &dynamodb.DeleteGlobalSecondaryIndexAction{IndexName: aws.String(ch.Delete)}})
+			}
+		}
+		out, err := c.UpdateTable(in)
+		if err != nil {
+			return errResp(err)
+		}
+		return Resp{Desc: descFromV1(out.TableDescription)}
 	case KAddIndex:
 		g := op.IdxCfg
 		return errResp(v1.AddIndex(c, op.Table, g.Name, g.Hash, g.Range))
